@@ -117,6 +117,11 @@ func c03Encode(c C03Case) (stream []byte, frameStarts []int) {
 			stream = append(stream, fakedocker.EncodeFrame(r.Typ, []byte(strings.ReplaceAll(ts+string(msg), " ", "_")))...)
 		case corrupt && c.Fault == "syserr":
 			stream = append(stream, fakedocker.EncodeFrame(fakedocker.Systemerr, []byte("daemon: boom"))...)
+		case corrupt && c.Fault == "empty-frame":
+			// A frame with an empty payload: no timestamp, no separator (or an empty daemon error).
+			stream = append(stream, fakedocker.EncodeFrame([]byte{1, 2, 3}[c.Pos%3], nil)...)
+		case corrupt && c.Fault == "ts-only":
+			stream = append(stream, fakedocker.EncodeFrame(r.Typ, []byte(ts))...)
 		default:
 			stream = append(stream, fakedocker.EncodeRecord(r.Typ, ts, msg)...)
 		}
@@ -338,8 +343,8 @@ func c03Gen(t *rapid.T) C03Case {
 		})
 	}
 	c.Frag = genFrag(t)
-	c.Fault = rapid.SampledFrom([]string{"", "", "", "truncate-all", "truncate", "badts", "nosep", "syserr", "ioerr"}).Draw(t, "fault")
-	if n == 0 && (c.Fault == "badts" || c.Fault == "nosep" || c.Fault == "syserr") {
+	c.Fault = rapid.SampledFrom([]string{"", "", "", "truncate-all", "truncate", "badts", "nosep", "syserr", "ioerr", "empty-frame", "ts-only"}).Draw(t, "fault")
+	if n == 0 && (c.Fault == "badts" || c.Fault == "nosep" || c.Fault == "syserr" || c.Fault == "empty-frame" || c.Fault == "ts-only") {
 		c.Fault = ""
 	}
 	if c.Fault != "" && c.Fault != "truncate-all" {
@@ -366,6 +371,8 @@ func FuzzC03(f *testing.F) {
 	f.Add(append(append([]byte{}, good...), good[:5]...), uint64(3), -1)
 	f.Add(append(append([]byte{}, good...), good[:20]...), uint64(2), -1)
 	f.Add(fakedocker.EncodeFrame(3, []byte("error from daemon")), uint64(0), -1)
+	f.Add(append(fakedocker.EncodeFrame(3, nil), good...), uint64(0), -1)
+	f.Add(append(append([]byte{}, good...), fakedocker.EncodeFrame(1, nil)...), uint64(5), -1)
 	f.Add(fakedocker.EncodeFrame(2, []byte("no-space-here")), uint64(0), -1)
 	f.Add(fakedocker.EncodeFrame(1, []byte("2024-02-30T00:00:00Z bad date")), uint64(0), -1)
 	f.Add([]byte{1, 0, 0, 0, 0xff, 0xff, 0xff, 0xff, 'x'}, uint64(0), -1)
